@@ -8,8 +8,14 @@
   namespace NakenVerif.Msp430): msp430_encode_sound, msp430_optimize_only_rewrites_index0, msp430_encode_len,
   msp430_walk_exact, msp430_fixpoint_structured (bytewise; Fixpoint.lean), arch_len, arch_reading, table_spec_rows, table_cmd_codes,
   table_core_types, table_no_shadow, table_core_rows, table_core_names, table_dis_kinds, msp430_pcinc_counterexample
+  MOS 6502 / 65C02 (NakenVerif.M6502.{Arch,Asm,Disasm,Spec,Tables,AsmProofs,AsmSound,AsmMain,Fixpoint}, namespace
+  NakenVerif.M6502): m6502_encode_sound, m6502_encode_len, m6502_walk_exact, m6502_refix_bytes,
+  m6502_fixpoint_structured, m6502_fixpoint_lowpage_counterexample, Arch.matrix_opcodes_nodup, Arch.matrix_forms_nodup,
+  table_matches_arch, table_names_mnem, table_names_arch, table_names_index, table_names_unique, table_len_consistent,
+  table_forms_unique, table_refind, search_hit
 -/
 import NakenVerif.Riscv.Props
 import NakenVerif.Riscv.RoundTrip
 import NakenVerif.Riscv.NoLossy
 import NakenVerif.Msp430.Fixpoint
+import NakenVerif.M6502.Fixpoint
